@@ -95,8 +95,13 @@ ScanResult Theo::scan(std::map<FileName, FileContent> files, FileName main) {
     }
     res.push_back(t);
   }
-  res.push_back(
-      Theo::Token{Theo::Token::T_EOF, "EOF", res.back().file, res.back().line});
+  // nothing scanned (absent main file, empty input): there is no last token
+  // whose location the EOF token could copy
+  if (res.empty())
+    res.push_back(Theo::Token{Theo::Token::T_EOF, "EOF", "-", -1});
+  else
+    res.push_back(Theo::Token{Theo::Token::T_EOF, "EOF", res.back().file,
+                              res.back().line});
   return {res, errors};
 }
 
